@@ -86,4 +86,10 @@ BitLenBE(n, width) == LET bits == n * 8 IN
    [i \in 1..width |-> LET j == width - i IN IF j <= 3 THEN (bits \div (256 ^ j)) % 256 ELSE 0]
 BitLenLE(n, width) == LET bits == n * 8 IN
    [i \in 1..width |-> LET j == i - 1 IN IF j <= 3 THEN (bits \div (256 ^ j)) % 256 ELSE 0]
+\* length field of a Merkle-Damgard padding when `off` bytes (16 little-endian bytes, an arbitrary 128-bit count) were processed before the
+\* n bytes at hand: ((off + n) * 8) mod 2^(8 * width), little- or big-endian.  Used with the verification hook that presets the count.
+AddSmallLE(bytes, n) == LET st == FoldLeft(LAMBDA acc, b : LET v == b + acc[1] IN <<v \div 256, Append(acc[2], v % 256)>>, <<n, <<>> >>, bytes) IN st[2]
+Shl3LE(bytes) == LET st == FoldLeft(LAMBDA acc, b : LET v == b * 8 + acc[1] IN <<v \div 256, Append(acc[2], v % 256)>>, <<0, <<>> >>, bytes) IN st[2]
+LenFieldLE(off, n, width) == SubSeq(Shl3LE(AddSmallLE(off, n)), 1, width)
+LenFieldBE(off, n, width) == Reverse(LenFieldLE(off, n, width))
 =============================================================================
